@@ -177,9 +177,9 @@ def observe_reads(m, env, order='forward'):
         if q is None:
             continue
         add(f'match:{sma}', lambda q=q: list(itertools.islice(q.get_mapping(m), 120)))
-        if i % 3 == 0:
+        if i % 4 == 0:
             add(f'match-all:{sma}', lambda q=q: list(itertools.islice(q.get_mapping(m, automorphism_filter=False), 120)))
-        if env['cython'] and i % 2 == 0:
+        if env['cython'] and i % 4 == 1:
             add(f'match-py:{sma}', lambda q=q: list(itertools.islice(q.get_mapping(m, _cython=False), 120)))
         if i % 5 == 0 and n:
             scope = list(m._atoms)[: max(1, n // 2)]
@@ -248,10 +248,11 @@ def observe_ops(m, env):
         edit('union in place', lambda c: c.union(env['fragments'][0][1], remap=True, copy=False))
     # which attribute is read FIRST on a fresh object must not matter (cross-stored cache entries)
     def first_read():
-        base = ser(snapshot(m.copy()))
+        def light(x):
+            return ser((str(x), x.smiles_atoms_order, x.atoms_order, x.sssr, x.rings_count, [a.ring_sizes for _, a in x.atoms()]))
+        base = light(m.copy())
         bad = []
-        for a in ('smiles_atoms_order', 'atoms_order', '_chiral_morgan', 'sssr', 'atoms_rings_sizes', 'rings_count', 'connected_components',
-                  'skin_graph', 'brutto', '__hash__', '__format__h'):
+        for a in ('smiles_atoms_order', 'atoms_order', 'sssr', 'atoms_rings_sizes', 'connected_components', '__hash__', '__format__h'):
             c = m.copy()
             try:
                 if a == '__hash__':
@@ -262,7 +263,7 @@ def observe_ops(m, env):
                     getattr(c, a)
             except Exception:
                 pass
-            mine = ser(snapshot(c))
+            mine = light(c)
             if mine != base:
                 bad.append(a)
                 stale.append({'observable': 'first-read:' + a, 'first': base[:600], 'other': mine[:600]})
@@ -504,7 +505,7 @@ def build_spec(ck):
     quick = ck.tier == 'quick'
     rng = random.Random(f'{ck.seed}:c19')
     mols = [('hand:' + s, s) for s in HAND]
-    pool = corpus.sample(corpus.lipo(), 40 if quick else 600, ck.seed, 'c19')
+    pool = corpus.sample(corpus.lipo(), 30 if quick else 600, ck.seed, 'c19')
     for s in pool:
         mols.append(('corpus:' + s, s))
     # element-symbol rich generated inputs (str-keyed tables: symbols, brutto, organic_set)
